@@ -69,6 +69,13 @@ def run(ctx):
                 k = gr["exception"]["etype"] + "@" + gr.get("stage", "")
                 errs[k] = errs.get(k, 0) + 1
                 continue
+            flat_vars = {a["var"] for a in flat["init"] + flat["body"] if "var" in a}
+            sys_vars = {x for d in gr.get("monomial_dumps", []) for t in d for x, _ in t[1]}
+            if not sys_vars <= flat_vars:
+                # goal over a loop constant that was folded away: it is not a variable of the flat
+                # program; such goals are validated against the SOURCE program in C01
+                errs["goal-over-folded-constant"] = errs.get("goal-over-folded-constant", 0) + 1
+                continue
             try:
                 inst = {"A": gr["matrix"], "v": gr["vector"]}
                 ms, ms_c, A_c, v_c = core.system_coq(gr, inst)
